@@ -169,6 +169,22 @@ def clear(ctx, cfg):
     ctx.check(g.elements_added == 0 and g.check_alt(hv(ctx, "q", k, m)) is False, "clear-survives-reopen")
 
 
+def close_updates(ctx, cfg):
+    """the anchored mechanism 'close flushes, UPDATES and releases': whatever the live counter is when close() is called (here
+    set through the public elements_added setter, which does not touch the file) is what the closed file records"""
+    from probables import BloomFilter
+    fs, f = _open(ctx, cfg)
+    L, k, m = f.bloom_length, f.number_hashes, f.number_bits
+    new = hv(ctx, "new", k, m)
+    f.add_alt(new)
+    N = ctx.int("N", 0, 2 ** 32)
+    f.elements_added = N
+    f.close()
+    g = BloomFilter.frombytes(fs.read(0, "x.blm"))
+    ctx.check(ctx.eq(g.elements_added, N), "close-writes-live-counter")
+    ctx.check(g.check_alt(new) is True, "close-writes-live-counter")
+
+
 def relative(ctx, cfg):
     """the same RELATIVE file name used from two working directories names two different files"""
     from probables import BloomFilter, BloomFilterOnDisk
@@ -245,7 +261,7 @@ def queries(ctx, cfg):
     ctx.check(ctx.eq(f.elements_added, N), "queries-leave-counter")
 
 
-HARNESS = {"c11.add_crash": add_crash, "c11.history": history, "c11.reopen": reopen, "c11.export": export, "c11.setops": setops, "c11.clear": clear, "c11.relative": relative,
+HARNESS = {"c11.add_crash": add_crash, "c11.history": history, "c11.reopen": reopen, "c11.export": export, "c11.setops": setops, "c11.clear": clear, "c11.relative": relative, "c11.close_updates": close_updates,
            "c11.queries": queries}
 
 
@@ -255,6 +271,6 @@ def jobs(tier):
     for est, fpr in geos:
         for op in ("add", "close"):
             js.append({"h": "c11.add_crash", "cfg": {"est": est, "fpr": fpr, "op": op}, "opts": {"cost": est * 5}})
-        for h in ("history", "reopen", "export", "setops", "queries", "clear", "relative"):
+        for h in ("history", "reopen", "export", "setops", "queries", "clear", "relative", "close_updates"):
             js.append({"h": "c11." + h, "cfg": {"est": est, "fpr": fpr}, "opts": {"cost": est}})
     return js
